@@ -10,11 +10,15 @@ Proved here (for every configuration): the crossbar facts the data path relies o
  * `delay_line`                a strobe entering a delay line of length L leaves it exactly L cycles later
  * `wdata_routed`              when exactly one master's delayed write strobe is up, the controller sees that
                                master's data and byte enables (the `Case` on the one-hot vector)
-together with C06 (address bijection), C02 (bank-machine legality), C03 (timing gates).
+ * `bank_queue_fifo`           per bank, the requests served by RD/WR commands are exactly the requests accepted from
+                               the crossbar, in the same order (the look-ahead FIFO with its storage array and pointers
+                               and the one-entry buffer refine a list queue) - for every depth and every schedule
+together with C06 (address bijection), C02 (bank-machine legality, composed controller), C03 (timing gates).
 The top-level refinement `core_memory_semantics_full` is stated, **not proved**.
 -/
 import LitedramVerif.Model.Core
 import LitedramVerif.Spec.PortMemory
+import LitedramVerif.Proofs.BmQueue
 namespace C01
 open Crossbar Hw
 
@@ -99,7 +103,28 @@ accepts the whole-core model's port behaviour.  (The check evaluates the same mo
 def core_memory_semantics_full : Prop :=
   ∀ (c : Core.Cfg) (inputs : List (Array MasterIn)), ∃ m, runSpec c (c.phy.dataWidth / 8) inputs = .ok m
 
+/-- **Per-bank order**: from reset, for every command-buffer depth ≥ 1 and every input history (requests offered or
+not, `cmd.ready` from the multiplexer at arbitrary cycles, refresh requests at arbitrary cycles), the sequence of
+requests the bank machine has accepted from the crossbar equals the sequence of requests its RD/WR commands have
+served so far followed by what is still queued: nothing is lost, duplicated or reordered inside a bank. -/
+theorem bank_queue_fifo (c : BankMachine.Cfg) (hd : 1 ≤ c.depth) (ins : List BankMachine.In) :
+    let r := BmQueue.runLog c (BankMachine.State.init c) [] [] ins
+    r.2.1 = r.2.2 ++ BmQueue.queue c r.1 :=
+  (BmQueue.runLog_inv c ins (BankMachine.State.init c) [] [] (BmQueue.finv_init c hd)
+    (by simp [BmQueue.queue, BmQueue.fifoList, BankMachine.State.init])).2
+
+/-- in particular the served sequence is a prefix of the accepted sequence -/
+theorem served_prefix_of_accepted (c : BankMachine.Cfg) (hd : 1 ≤ c.depth) (ins : List BankMachine.In) :
+    (BmQueue.runLog c (BankMachine.State.init c) [] [] ins).2.2 <+: (BmQueue.runLog c (BankMachine.State.init c) [] [] ins).2.1 :=
+  ⟨_, (bank_queue_fifo c hd ins).symm⟩
+
 /-! ### non-vacuity -/
+example :
+    let c : BankMachine.Cfg := { depth := 2, tRAS := some 2, tRC := some 3, twtp := 2, tRCD := 1, tRP := 1, colbits := 6, rowbits := 11,
+                                 align := 2, abits := 11, ap := false }
+    let ins : List BankMachine.In := (List.range 40).map fun k => ⟨k % 3 != 2, k % 2 == 0, (k * 29) % 512, false, k % 4 != 1⟩
+    let r := BmQueue.runLog c (BankMachine.State.init c) [] [] ins
+    r.2.2.length ≥ 5 ∧ r.2.1.length ≥ r.2.2.length := by decide +kernel
 example : (([true, false].foldl (push 3) (push 3 [false, false, false] true)).getD 2 false) = true := by decide
 
 end C01
